@@ -17,5 +17,6 @@ Definition all_started (c : wcase) : list Z := flat_map (fun so => o_started (sn
 Definition mon_once (c : wcase) : bool := znodup (all_started c).
 
 Definition case := wcase.
-Definition verdict (c : case) : nat := if mon_once c then classify rel_C04 c else 1.
+Definition verdict (c : case) : nat :=
+  if negb (mon_nohang c) then 1 (* a caller hangs *) else if mon_once c then classify rel_C04 c else 1.
 Definition mismatches (cs : list case) : list (nat * nat) := collect verdict 0 cs.
